@@ -70,6 +70,7 @@ EXTREMES = [
     {"update": {"mode": "proportional", "alpha": 1e308}},
     {"update": {"mode": "additive", "alpha": float("inf")}},
     {"decay": {"floor": float("nan")}},
+    {"decay": {"floor": float("nan")}, "update": {"mode": "additive", "alpha": 0.07, "clamp_min": -0.8, "clamp_max": -0.4}},
     {"update": {"clamp_min": float("-inf"), "clamp_max": float("inf")}},
     {"update": {"clamp_min": -1e-300, "clamp_max": 1e-300}},
 ]
@@ -108,6 +109,7 @@ def draw_config(r, override=None) -> Dict[str, Any]:
                              "attach_weight": r.choice([0.5, 0.3, 1.0, -0.5, 0.0]), "cap_per_turn": r.choice([0, 1, 2])}}
         if override:
             raw.update({"coactivation_threshold": 0.2, "observe_top_k": 64, "pair_cap_per_obs": 2048})
+            raw["update"].update({"clamp_min": -1.0, "clamp_max": 1.0})
         for k, v in (override or {}).items():
             raw[k].update(v)
         try:
